@@ -199,7 +199,7 @@ def oracle_pr(ctx, pre, op, impl_line):
 
 def tie_calc_pr(ctx, exe, ok):
     hist = {}
-    n_per_db = ctx.n(1500, 40000) if ok else 40000
+    n_per_db = ctx.n(4000, 40000) if ok else 40000
     text = (DBDIR / "phreeqc.dat").read_text(errors="replace")
     dbs = ["phreeqc.dat", "pitzer.dat", "core10.dat", "Amm.dat"]
     nsyn = ctx.n(3, 12)
@@ -447,9 +447,9 @@ def judge(ctx, case, res, pre):
 
 
 def real_runs(ctx, exe, ok):
-    n = ctx.n(160, 3000) if ok else 3000
+    n = ctx.n(500, 4000) if ok else 4000
     hist = {}
-    cases = [G.real_case(ctx.rng, hist) for _ in range(n)]
+    cases = G.corpus_cases() + [G.real_case(ctx.rng, hist) for _ in range(n)]
     consts = {}
     for db in sorted({c["db"] for c in cases}):
         consts[db] = db_consts(exe, db)[1]
